@@ -366,6 +366,8 @@ class Run:
         spec = self.spec
         e = simenv.env()
         e.reset_between_cases()
+        if spec.get("uptime_us"):
+            e.advance(spec["uptime_us"])
         inst = ntcore.NetworkTableInstance.getDefault()
         mode_sub = inst.getStringTopic("/robot/mode").subscribe("<unset>")
         root = tempfile.mkdtemp(prefix="vf-auto-")
